@@ -142,6 +142,9 @@ package operations
 //@   ensures [drive-free] !driveHeld
 
 //@ func (*Operations).Update
+//@   property C02 also C14
+//@   ghostset opUpdates := old(opUpdates) + 1
+//@   ensures [counted] opUpdates == old(opUpdates) + 1
 //@   property C01
 //@   at call append#1 assert [indexer-gets-the-record-as-it-reads-back-unwrapped] !hdrSealed[hdr]
 //@   at call append#2 assert [indexer-gets-the-record-as-it-reads-back-unwrapped] !hdrSealed[hdr]
@@ -180,7 +183,7 @@ package operations
 //@   property C10 also C11
 //@   safety C10
 //@   requires o != nil && opsReady(o) && opsIdle(o) && getSrc != nil
-//@   modifies *, driveHeld, mutexHeld[addr(o.diskOperationLock)], tapeWrites, indexWrites, ghosts(C04), ghosts(C08), ghosts(C09), ghosts(C05), ghosts(C14), ghosts(C07), ghosts(C12)
+//@   modifies *, driveHeld, mutexHeld[addr(o.diskOperationLock)], tapeWrites, indexWrites, ghosts(C04), ghosts(C08), ghosts(C09), ghosts(C05), ghosts(C14), ghosts(C07), ghosts(C12), opUpdates
 //@   ensures [drive-free] !driveHeld
 //@   ensures [ops-free] !mutexHeld[addr(o.diskOperationLock)]
 
